@@ -36,7 +36,10 @@ add(Contract(
     'role:FIELD.pack', role=True,
     params={'f': 'ref:Field', 'pkt': 'ref:Packet', 'fragments': 'ref:Fragments', 'k': 'kw'},
     requires=["WF(fragments)", "fragments.current_offset >= 0", "k.has_ipp"],
-    ensures=["WF(fragments)", "fragments.current_offset >= 0"],
+    ensures=["WF(fragments)", "fragments.current_offset >= 0",
+             # serialising never changes the field's value (scratch slots it owns may change)
+             "hasslot(pkt, f.field_name) == old(hasslot(pkt, f.field_name))",
+             "same(slot(pkt, f.field_name), old(slot(pkt, f.field_name)))"],
     raises={'PacketError': ["exc.was_error_found_in_unpacking_phase == False", "StackWF(exc)",
                             "fresh_since(exc) and fresh_since(exc.fields_stack)",
                             "WF(fragments)", "fragments.current_offset >= 0"],
